@@ -42,3 +42,31 @@ package extract
 //@   ensures dropped-only-if-no-method-at-all: old(has(typ, name)) && !has(typ, name) ==> t.NumMethods() == 0 && t.NumEmbeddeds() != 0
 //@   ensures constraint-interface-dropped: t.NumMethods() == 0 && t.NumEmbeddeds() != 0 ==> !has(typ, name)
 //@   ensures other-bindings-kept: forallS(k, k != name ==> has(typ, k) == old(has(typ, k)) && typ[k] == old(typ[k]))
+
+// Method strings of an interface wrapper (one arbitrary iteration of the parameter loop and of the result
+// loop of genContent): parameter j is named as in the interface (a<j> when it has no name); the wrapper's
+// parameter list repeats name and type, the forwarding call repeats the name; the LAST parameter of a
+// variadic method is declared `name ...T` (T: the element type, i.e. the slice type without its leading
+// "[]") and forwarded as `name...`; result j is `name type`.
+//@ pred pname(sign, j): sign.Params().At(j).Name()
+//@ pred aname(sign, j): ite(pname(sign, j) == "", fmt.Sprintf("a%d", j), pname(sign, j))
+//@ lit Extractor.genContent for:args () ()
+//@   props C18
+//@   opt safety = off
+//@   opt opaque-calls = *
+//@   opt opaque-havoc = none
+//@   requires [assume] 0 <= j && j < len(args) && len(params) == len(args) && args != params
+//@   let variadicLast: sign.Variadic() && j == len(args) - 1
+//@   ensures plain-parameter: !variadicLast ==> args[j] == aname(sign, j) && params[j] == aname(sign, j) + " " + types.TypeString(sign.Params().At(j).Type(), qualify)
+//@   ensures variadic-last-parameter: variadicLast ==> args[j] == aname(sign, j) + "..." && params[j] == aname(sign, j) + " ..." + substr(types.TypeString(sign.Params().At(j).Type(), qualify), 2, len(types.TypeString(sign.Params().At(j).Type(), qualify)))
+//@   ensures other-entries-untouched: forall(k, 0, len(args), k != j ==> args[k] == old(args[k]) && params[k] == old(params[k]))
+//@   canary args[j] == aname(sign, j)
+
+//@ lit Extractor.genContent for:results () ()
+//@   props C18
+//@   opt safety = off
+//@   opt opaque-calls = *
+//@   opt opaque-havoc = none
+//@   requires [assume] 0 <= j && j < len(results)
+//@   ensures result-name-and-type: results[j] == sign.Results().At(j).Name() + " " + types.TypeString(sign.Results().At(j).Type(), qualify)
+//@   ensures other-entries-untouched: forall(k, 0, len(results), k != j ==> results[k] == old(results[k]))
